@@ -47,13 +47,16 @@ def runH (toks : List String) : String :=
   | [_path, encT, rd, z, l, i, _body] =>
     match bytesOfTok encT, natOfTok z, natOfTok l, natOfTok i with
     | some encB, some z, some l, some i =>
-      let hdr := String.fromUTF8! (ByteArray.mk encB.toArray)
+      -- a header value that is not valid UTF-8 is none of the known names
+      let enc : Enc := match String.fromUTF8? (ByteArray.mk encB.toArray) with
+        | some hdr => encOfHeader hdr
+        | none => .other
       let libs : Libs Nat Nat :=
         { readAll := if rd = "1" then some 0 else none
           zlib := fun _ => if z ≥ 1 then some 1 else none
           lz4 := fun _ => if l ≥ 1 then some 2 else none
           unmarshal := fun b => if (b = 0 ∧ i = 1) ∨ (b = 1 ∧ z = 2) ∨ (b = 2 ∧ l = 2) then some 0 else none }
-      let r := handler libs (encOfHeader hdr)
+      let r := handler libs enc
       s!"S {r.1} dispatched={if r.2.isSome then 1 else 0}"
     | _, _, _, _ => "BAD_CASE"
   | _ => "BAD_CASE"
